@@ -894,6 +894,18 @@ impl RootRef<'_> {
             description: "file creation path has trailing slash".into(),
         })?;
 
+        // ".." can never be created, and normally the kernel refuses a
+        // creating open of it with EISDIR. With O_PATH the kernel ignores
+        // O_CREAT though, and the open below would return the parent of the
+        // resolved directory -- for a bare ".." the parent of the root.
+        if name.as_os_str().as_bytes() == b".." {
+            Err(ErrorImpl::OsError {
+                operation: "pathrs create_file".into(),
+                source: IOError::from_raw_os_error(libc::EISDIR),
+            })
+            .wrap("file creation path ends in '..'")?
+        }
+
         // XXX: openat2(2) supports doing O_CREAT on trailing symlinks without
         // O_NOFOLLOW. We might want to expose that here, though because it
         // can't be done with the emulated backend that might be a bad idea.
